@@ -335,7 +335,7 @@ class SimBridge:
         ds = getattr(ev, "ds", None)
         if ds is None or getattr(ev, "transmit_idx", None) is not None:
             return False
-        return sorted(self.job.tasks[ds.task].definition.output_schema)[-1] == ds.output
+        return list(self.job.tasks[ds.task].definition.output_schema)[-1] == ds.output   # declared == key-sorted order (jobgen)
 
     def recv_events(self):
         from cascade.executor.msg import DatasetPublished
